@@ -18,7 +18,7 @@ for path in sorted(glob.glob(os.path.join(HERE, 'seeded', '*', 'meta.json'))):
         continue
     prop, num = sid.split('-')
     num = int(num)
-    prefix, k = ('out', num) if num <= 3 else (('r2', num - 3) if num <= 6 else (('r3', num - 6) if num <= 9 else (('r4', num - 9) if num <= 12 else ('r5', num - 12))))
+    prefix, k = ('out', num) if num <= 3 else (('r2', num - 3) if num <= 6 else (('r3', num - 6) if num <= 9 else (('r4', num - 9) if num <= 12 else (('r5', num - 12) if num <= 15 else ('r6', num - 15)))))
     wt = '/tmp/seed/%s' % prop
     demo = '/tmp/seed/%s-%s/change%d_demo.py' % (prefix, prop, k)
     if not os.path.isdir(wt) or not os.path.exists(demo):
